@@ -531,18 +531,25 @@ func loadFindings() findingsFile {
 // ---------------------------------------------------------------------------------------------
 
 type replayFile struct {
-	Property  string   `json:"property"`
-	Tier      string   `json:"tier"`
-	Seed      uint64   `json:"seed"`
-	RunIndex  int64    `json:"run_index"`
-	Sub       string   `json:"sub,omitempty"`
-	Tape      []uint32 `json:"tape"`
-	Signature string   `json:"signature"`
-	Detail    string   `json:"detail"`
-	Input     string   `json:"input,omitempty"`
-	SiteHash  string   `json:"site_table_hash,omitempty"`
-	RepoHash  string   `json:"repo_tree_hash,omitempty"`
-	Note      string   `json:"note,omitempty"`
+	Property  string      `json:"property"`
+	Tier      string      `json:"tier"`
+	Seed      uint64      `json:"seed"`
+	RunIndex  int64       `json:"run_index"`
+	Sub       string      `json:"sub,omitempty"`
+	Tape      []uint32    `json:"tape"`
+	Signature string      `json:"signature"`
+	Detail    string      `json:"detail"`
+	Input     string      `json:"input,omitempty"`
+	SiteHash  string      `json:"site_table_hash,omitempty"`
+	RepoHash  string      `json:"repo_tree_hash,omitempty"`
+	Note      string      `json:"note,omitempty"`
+	Target    *targetSpec `json:"target,omitempty"`
+}
+
+type targetSpec struct {
+	Park string `json:"park"`
+	Peer string `json:"peer"`
+	Nth  int    `json:"nth"`
 }
 
 type replayResult struct {
@@ -792,4 +799,67 @@ func replayCmd(file string) int {
 	fmt.Println("no violation on this tree")
 	cleanup()
 	return 0
+}
+
+// raceLocations splits a race signature "race/<loc>~<loc>" into its source locations.
+func raceLocations(sig string) []string {
+	sig = strings.TrimPrefix(sig, "race/")
+	var out []string
+	for _, l := range strings.Split(sig, "~") {
+		if l != "" {
+			out = append(out, l)
+		}
+	}
+	return out
+}
+
+func sharesLocation(a, b string) bool {
+	for _, x := range raceLocations(a) {
+		for _, y := range raceLocations(b) {
+			if x == y {
+				return true
+			}
+		}
+	}
+	return false
+}
+
+// raceWitness turns a race report found during the search into a replayable witness.  Whether
+// the detector notices a race in an arbitrary schedule depends on incidental happens-before edges
+// through process-global standard-library state (sync.Pool in regexp and fmt, reflect's caches),
+// which differ between a warm worker and a fresh replay process.  The witness keeps the run's
+// world and operations (the tape) but replaces the schedule by the directed one that makes the
+// two reported statements adjacent: then nothing can order them and the report is deterministic.
+func raceWitness(bi *buildInfo, pc *propCfg, rf *replayFile) (*replayFile, int) {
+	locs := raceLocations(rf.Signature)
+	if len(locs) == 0 {
+		return nil, 0
+	}
+	if len(locs) == 1 {
+		locs = append(locs, locs[0])
+	}
+	tried := 0
+	type cand struct{ park, peer string }
+	cands := []cand{{locs[0], locs[1]}, {locs[1], locs[0]}}
+	if locs[0] == locs[1] {
+		cands = cands[:1]
+	}
+	for nth := 1; nth <= 4; nth++ {
+		for _, c := range cands {
+			if strings.HasPrefix(c.park, "verifsim/") {
+				continue // harness code has no yield sites to park at
+			}
+			w := *rf
+			w.Target = &targetSpec{Park: c.park, Peer: c.peer, Nth: nth}
+			tried++
+			rr, err := execReplay(bi, pc, &w, false)
+			if err != nil || !rr.Violated || !strings.HasPrefix(rr.Signature, "race/") || !sharesLocation(rr.Signature, rf.Signature) {
+				continue
+			}
+			w.Signature = rr.Signature
+			w.Detail = rr.Detail
+			return &w, tried
+		}
+	}
+	return nil, tried
 }
